@@ -5,14 +5,13 @@
 //! agree and answers with a status, headers and a streamed body derived from the id; the client
 //! checks that what it gets back belongs to its own request and is complete.
 //!
-//! line: `e2e <buf> <pool 0|1> <tls 0|1> ; <req> ; <req> …`
-//!   req: `<id> <ver 11|2> <origin 0-3> <method G|P|U|D|H> <pathlen> <querylen> <bodylen> <bodychunk> <bodyexact 0|1>
+//! line: `e2e <buf> <pool 0|1> <tls 0|1|2|3> ; <req> ; <req> …`   (tls 2 / 3: the server's ALPN offers only http/1.1 / only h2)
+//!   req: `<id> <ver 11|2> <origin 0-5: scheme/host/port variants, see `origin`> <method G|P|U|D|H> <pathlen> <querylen> <bodylen> <bodychunk> <bodyexact 0|1>
 //!         <handler delay ms> <resplen> <respchunk> <respexact 0|1> <start ms> <cancel after ms|->`
 //! obs : per request `<id>=<ok|cancelled|timeout|err:CLASS|mismatch:FIELDS>/<handler calls>/<ok|aborted|bad:FIELDS|->`
 use crate::rng::Rng;
 use bytes::Bytes;
 use http_body_util::BodyExt;
-use hyperdriver::client::conn::transport::duplex::DuplexTransport;
 use hyperdriver::server::conn::Acceptor;
 use hyperdriver::stream::duplex;
 use hyperdriver::{Body, Client, Server};
@@ -73,12 +72,58 @@ fn parse_req(t: &[&str]) -> Option<R> {
         rchunk: n(11)? as usize, rexact: t[12] == "1", start: n(13)?, cancel: if t[14] == "-" { None } else { Some(n(14)?) } })
 }
 
+/// origin index -> (scheme, authority as written, server it must reach, Host header it must produce)
+/// Servers are distinct per (host, effective port): a connection of one origin used for another is seen.
+fn origin(k: u64, tls: bool) -> (&'static str, &'static str, usize, &'static str) {
+    let (plain, secure) = if tls { ("https", "wss") } else { ("http", "ws") };
+    let (dflt, other) = if tls { (":443", ":80") } else { (":80", ":443") };
+    match k % 6 {
+        0 => (plain, "o0.example.com", 0, "o0.example.com"),
+        1 => (plain, "o0.example.com:8080", 1, "o0.example.com:8080"),
+        2 => (plain, "o1.example.com", 2, "o1.example.com"),
+        3 => (plain, if other == ":443" { "o0.example.com:443" } else { "o0.example.com:80" }, 3, if other == ":443" { "o0.example.com:443" } else { "o0.example.com:80" }),
+        4 => (secure, "o0.example.com", 0, "o0.example.com"),
+        _ => (plain, if dflt == ":80" { "o0.example.com:80" } else { "o0.example.com:443" }, 0, "o0.example.com"),
+    }
+}
+const NSERVERS: usize = 4;
+
+fn server_of(uri: &http::Uri) -> Option<usize> {
+    let secure = matches!(uri.scheme_str(), Some(s) if s.eq_ignore_ascii_case("https") || s.eq_ignore_ascii_case("wss"));
+    let port = uri.port_u16().unwrap_or(if secure { 443 } else { 80 });
+    match (uri.host()?, port) {
+        ("o0.example.com", 80) if !secure => Some(0),
+        ("o0.example.com", 443) if secure => Some(0),
+        ("o0.example.com", 8080) => Some(1),
+        ("o1.example.com", _) => Some(2),
+        ("o0.example.com", _) => Some(3),
+        _ => None,
+    }
+}
+
+/// transport: routes by scheme, host and port to one of the servers
+#[derive(Clone)]
+struct Route { servers: Vec<duplex::DuplexClient>, buf: usize }
+impl tower::Service<http::request::Parts> for Route {
+    type Response = duplex::DuplexStream;
+    type Error = std::io::Error;
+    type Future = Pin<Box<dyn Future<Output = Result<duplex::DuplexStream, std::io::Error>> + Send + 'static>>;
+    fn poll_ready(&mut self, _: &mut Context<'_>) -> Poll<Result<(), Self::Error>> { Poll::Ready(Ok(())) }
+    fn call(&mut self, req: http::request::Parts) -> Self::Future {
+        let target = server_of(&req.uri).map(|k| self.servers[k].clone());
+        let buf = self.buf;
+        Box::pin(async move {
+            match target { Some(c) => c.connect(buf).await, None => Err(std::io::Error::new(std::io::ErrorKind::NotFound, "no such origin")) }
+        })
+    }
+}
+
 fn status_of(id: u64) -> u16 { [200u16, 201, 202, 203, 404, 418, 500][(id % 7) as usize] }
 
 #[derive(Default)]
 struct SrvLog { calls: HashMap<u64, (usize, String)> }
 
-async fn handler(log: Arc<Mutex<SrvLog>>, req: http::Request<Body>) -> Result<http::Response<ChunkBody>, BoxError> {
+async fn handler(log: Arc<Mutex<SrvLog>>, me: usize, req: http::Request<Body>) -> Result<http::Response<ChunkBody>, BoxError> {
     let (parts, body) = req.into_parts();
     let h = |n: &str| parts.headers.get(n).and_then(|v| v.to_str().ok()).unwrap_or("").to_string();
     let hn = |n: &str| h(n).parse::<u64>().unwrap_or(u64::MAX);
@@ -100,7 +145,11 @@ async fn handler(log: Arc<Mutex<SrvLog>>, req: http::Request<Body>) -> Result<ht
     let host = h("host");
     let authority = parts.uri.authority().map(|a| a.to_string()).unwrap_or_default();
     let seen_origin = if !host.is_empty() { host.clone() } else { authority };
-    if seen_origin != format!("o{}.example.com", hn("x-o")) { bad.push("origin"); }
+    // an explicit default port may or may not survive (Host header vs :authority): equivalent
+    let dflt = h("x-dp");
+    let seen_origin = seen_origin.strip_suffix(dflt.as_str()).unwrap_or(&seen_origin).to_string();
+    if seen_origin != h("x-h") { bad.push("host"); }
+    if hn("x-s") != me as u64 { bad.push("server"); }
     // the version the handler sees is the connection's, which the pool may choose (a pooled HTTP/2
     // connection serves HTTP/1.1 requests of its origin too): not compared
     if h("x-custom") != format!("v{}", id) { bad.push("header"); }
@@ -117,6 +166,7 @@ async fn handler(log: Arc<Mutex<SrvLog>>, req: http::Request<Body>) -> Result<ht
         .status(status_of(id))
         .header("x-id", id.to_string())
         .header("x-origin", seen_origin)
+        .header("x-server", me.to_string())
         .header("x-body-digest", format!("{:x}", fnv(&body)))
         .header("x-resp-custom", format!("r{}", id))
         .body(ChunkBody::new(pat(id, 2, rlen), hn("x-rc") as usize % 10_000_000, h("x-re") == "1", 0))?;
@@ -126,14 +176,15 @@ async fn handler(log: Arc<Mutex<SrvLog>>, req: http::Request<Body>) -> Result<ht
 fn fnv(b: &[u8]) -> u64 { b.iter().fold(0xcbf29ce484222325u64, |h, x| (h ^ *x as u64).wrapping_mul(0x100000001b3)) }
 
 fn build(r: &R, tls: bool) -> http::Request<ChunkBody> {
-    let mut uri = format!("{}://o{}.example.com/r/{}/{}", if tls { "https" } else { "http" }, r.origin, r.id, text(r.id, 3, r.plen));
+    let (scheme, authority, srv, host) = origin(r.origin, tls);
+    let mut uri = format!("{scheme}://{authority}/r/{}/{}", r.id, text(r.id, 3, r.plen));
     if r.qlen > 0 { uri.push_str(&format!("?q={}", text(r.id, 4, r.qlen))); }
     http::Request::builder()
         .method(r.method)
         .uri(uri)
         .version(if r.h2 { http::Version::HTTP_2 } else { http::Version::HTTP_11 })
         .header("x-id", r.id.to_string()).header("x-m", r.method).header("x-pl", r.plen.to_string()).header("x-ql", r.qlen.to_string())
-        .header("x-bl", r.blen.to_string()).header("x-o", r.origin.to_string()).header("x-v", if r.h2 { "2" } else { "11" })
+        .header("x-bl", r.blen.to_string()).header("x-o", r.origin.to_string()).header("x-h", host).header("x-dp", if tls { ":443" } else { ":80" }).header("x-s", srv.to_string()).header("x-v", if r.h2 { "2" } else { "11" })
         .header("x-d", r.delay.to_string()).header("x-rl", r.rlen.to_string()).header("x-rc", r.rchunk.to_string())
         .header("x-re", if r.rexact { "1" } else { "0" }).header("x-custom", format!("v{}", r.id))
         .body(ChunkBody::new(pat(r.id, 1, r.blen), r.bchunk, r.bexact, if r.id % 3 == 0 { 1 } else { 0 }))
@@ -158,7 +209,9 @@ async fn one(svc: hyperdriver::service::SharedService<http::Request<ChunkBody>, 
         let mut bad = vec![];
         if parts.status.as_u16() != status_of(r.id) { bad.push("status"); }
         if h("x-id") != r.id.to_string() { bad.push("id"); }
-        if h("x-origin") != format!("o{}.example.com", r.origin) { bad.push("origin"); }
+        let (_, _, srv, host) = origin(r.origin, tls);
+        if h("x-origin") != host { bad.push("origin"); }
+        if h("x-server") != srv.to_string() { bad.push("server"); }
         if h("x-resp-custom") != format!("r{}", r.id) { bad.push("header"); }
         if h("x-body-digest") != format!("{:x}", fnv(&pat(r.id, 1, r.blen))) { bad.push("reqdigest"); }
         let want = if r.method == "HEAD" { vec![] } else { pat(r.id, 2, r.rlen) };
@@ -171,19 +224,24 @@ async fn one(svc: hyperdriver::service::SharedService<http::Request<ChunkBody>, 
     }
 }
 
-async fn run_case(buf: usize, pool: bool, tls: bool, reqs: Vec<R>) -> String {
+async fn run_case(buf: usize, pool: bool, tls: bool, alpn_srv: &str, reqs: Vec<R>) -> String {
     crate::tls::install();
     let log: Arc<Mutex<SrvLog>> = Default::default();
-    let (client, incoming) = duplex::pair();
-    let acceptor = Acceptor::from(incoming);
-    let acceptor = if tls { acceptor.with_tls(Arc::new(crate::tls::server_config("good", "both"))) } else { acceptor };
-    let log2 = log.clone();
-    let make = hyperdriver::service::make_service_fn(move |_io: &hyperdriver::server::conn::Stream| {
-        let log = log2.clone();
-        async move { Ok::<_, BoxError>(tower::service_fn(move |req| handler(log.clone(), req))) }
-    });
-    let server = tokio::spawn(std::future::IntoFuture::into_future(Server::builder().with_acceptor(acceptor).with_make_service(make).with_auto_http().with_tokio()));
-    let b = Client::builder().with_transport(DuplexTransport::new(buf, client)).with_protocol(hyperdriver::client::conn::protocol::auto::HttpConnectionBuilder::<ChunkBody>::default()).without_redirects();
+    let mut clients = vec![];
+    let mut servers = vec![];
+    for me in 0..NSERVERS {
+        let (client, incoming) = duplex::pair();
+        clients.push(client);
+        let acceptor = Acceptor::from(incoming);
+        let acceptor = if tls { acceptor.with_tls(Arc::new(crate::tls::server_config("good", alpn_srv))) } else { acceptor };
+        let log2 = log.clone();
+        let make = hyperdriver::service::make_service_fn(move |_io: &hyperdriver::server::conn::Stream| {
+            let log = log2.clone();
+            async move { Ok::<_, BoxError>(tower::service_fn(move |req| handler(log.clone(), me, req))) }
+        });
+        servers.push(tokio::spawn(std::future::IntoFuture::into_future(Server::builder().with_acceptor(acceptor).with_make_service(make).with_auto_http().with_tokio())));
+    }
+    let b = Client::builder().with_transport(Route { servers: clients, buf }).with_protocol(hyperdriver::client::conn::protocol::auto::HttpConnectionBuilder::<ChunkBody>::default()).without_redirects();
     let b = if pool { b.with_default_pool() } else { b.without_pool() };
     let b = if tls { b.with_tls(crate::tls::client_config("both")) } else { b.without_tls() };
     let svc = b.with_body::<ChunkBody, Body>().build_service();
@@ -196,7 +254,7 @@ async fn run_case(buf: usize, pool: bool, tls: bool, reqs: Vec<R>) -> String {
     // let handlers of cancelled requests finish before the log is read
     tokio::time::sleep(Duration::from_secs(200)).await;
     drop(svc);
-    server.abort();
+    for sv in servers { sv.abort(); }
     let l = log.lock().unwrap();
     outs.iter().map(|(id, o)| {
         let (n, f) = l.calls.get(id).cloned().unwrap_or((0, "-".into()));
@@ -212,17 +270,24 @@ pub fn run(toks: &[&str]) -> String {
     let reqs: Vec<R> = parts[1..].iter().filter_map(|p| parse_req(p)).collect();
     if reqs.len() != parts.len() - 1 { return "bad-input".into(); }
     let rt = tokio::runtime::Builder::new_current_thread().enable_all().start_paused(true).build().unwrap();
-    let r = rt.block_on(run_case(buf, parts[0][1] == "1", parts[0][2] == "1", reqs));
+    // tls: 0 = none, 1 = TLS with ALPN h2+http/1.1 on the server, 2 = server offers http/1.1 only, 3 = server offers h2 only
+    let tls = parts[0][2];
+    let r = rt.block_on(run_case(buf, parts[0][1] == "1", tls != "0", match tls { "2" => "h11", "3" => "h2", _ => "both" }, reqs));
     drop(rt);
     r
 }
 
 pub fn gen(r: &mut Rng, _i: u64) -> String {
-    let buf = *r.pick(&[64u64, 256, 1024, 4096, 65536]);
+    let buf = *r.pick(&[8u64, 16, 24, 64, 256, 1024, 4096, 65536]);
     let pool = r.chance(4, 5) as u8;
-    let tls = r.chance(1, 5) as u8;
+    let tls = if r.chance(1, 4) { r.range(1, 3) } else { 0 };
+    // HTTP/2 over TLS over a pipe of fewer than 16 bytes spins in the client's h2 connection task (hyper's H2ClientFuture ->
+    // h2 FramedWrite::flush -> tokio-rustls poll_flush); HTTP/1 over TLS and HTTP/2 in the clear are fine at 8 bytes. Not
+    // attributed to hyperdriver, not generated (DESIGN.md, C01)
+    let buf = if tls != 0 && buf < 64 { 64 } else { buf };
     let n = r.range(2, 10);
-    let norigins = r.range(1, 3);
+    // a scenario uses a few of the six origins, often ones that differ only in port or scheme
+    let pool_of: Vec<u64> = match r.below(4) { 0 => vec![0], 1 => vec![0, 3, 5], 2 => vec![0, 4, 1], _ => vec![0, 1, 2, 3, 4, 5] };
     // rounds: later rounds find the connections of earlier ones in the pool
     let rounds = r.range(1, 3);
     let small = |r: &mut Rng| match r.below(6) { 0 => 0, 1 => r.range(1, 16), 2 | 3 => r.range(17, 900), 4 => r.range(901, 9000), _ => r.range(9001, 70000) };
@@ -245,7 +310,7 @@ pub fn gen(r: &mut Rng, _i: u64) -> String {
         // hyper sends no body for GET/HEAD unless its length is known up front
         let bexact = if method == "G" || method == "H" { 1 } else { r.chance(1, 2) as u8 };
         reqs.push(format!("{id} {ver} {} {method} {} {} {blen} {bchunk} {bexact} {delay} {rlen} {rchunk} {} {start} {cancel}",
-            r.below(norigins), r.below(40), if r.chance(1, 2) { 0 } else { r.range(1, 30) }, r.chance(1, 2) as u8));
+            r.pick(&pool_of), r.below(40), if r.chance(1, 2) { 0 } else { r.range(1, 30) }, r.chance(1, 2) as u8));
     }
     format!("{buf} {pool} {tls} ; {}", reqs.join(" ; "))
 }
